@@ -16,6 +16,7 @@ import Ogen.CliStages_proof
 import Ogen.RegexSemantics_proof
 import Ogen.NameGen_proof
 import Ogen.TStore_proof
+import Ogen.UnixTime_proof
 
 /-! Line-protocol driver over all executable models: `<model> <payload>` per line, one
     canonical output line per input line. Core-only (no Mathlib) so it links natively. -/
@@ -61,6 +62,7 @@ def dispatch (line : String) : String :=
     | "rematch" => ReSem.rematchLine payload
     | "namegen" => NameGen.namegenLine payload
     | "tstore" => TStore.tstoreLine payload
+    | "unixt" => UnixT.unixLine payload
     | "jeq" => JEqDrv.runLine payload
     | "enum" => JEqDrv.enumLine payload
     | _ => "bad-model"
